@@ -441,6 +441,10 @@ class Program:
     def own_method(self, cls_q: str, name: str) -> FuncInfo:
         f = self.cls(cls_q).methods.get(name)
         if f is None:
+            # pulled up into a base class (de-duplication of sibling implementations): the inherited
+            # definition is what instances of cls_q run
+            f = self.lookup_method(self.cls(cls_q), name)
+        if f is None:
             raise AnalysisError("method %s.%s not defined in class body" % (cls_q, name))
         return f
 
